@@ -188,6 +188,23 @@ static bool mul_frag_syntactic(const Basic &a)
     return atom_base(a);
 }
 
+// the symbolic-exponent fragment (`AC.mulFragSyntacticS`): mul_operand_safe without numeric radicals and zero
+static bool mul_frag_symbolic(const Basic &a)
+{
+    auto fac = [](const Basic &b, const Basic &e) { return atom_base(b) && add_operand_safe(e); };
+    if (is_a<Mul>(a)) {
+        for (auto &p : down_cast<const Mul &>(a).get_dict())
+            if (!fac(*p.first, *p.second))
+                return false;
+        return true;
+    }
+    if (is_a<Pow>(a))
+        return fac(*down_cast<const Pow &>(a).get_base(), *down_cast<const Pow &>(a).get_exp());
+    if (is_a_Number(a))
+        return !down_cast<const Number &>(a).is_zero();
+    return atom_base(a);
+}
+
 // descriptive tags for the statistics / the oracle text: *why* an operand is outside the safe class
 struct Classes {
     bool rad_neg = false;     // numeric radical with a negative base            (-2)**(1/3)
@@ -459,11 +476,15 @@ std::string hx_run(const std::string &line, std::string &oracle)
     if (k == K_ADD && !unsafe)
         stat("theorem-fragment:add");
     if (k == K_MUL) {
-        bool in = true;
-        for (auto &o2 : ops)
+        bool in = true, ins = true;
+        for (auto &o2 : ops) {
             in = in && mul_frag_syntactic(*o2.e);
+            ins = ins && mul_frag_symbolic(*o2.e);
+        }
         if (in)
-            stat("theorem-fragment:mul");
+            stat("theorem-fragment:mul-numeric-exponents");
+        else if (ins)
+            stat("theorem-fragment:mul-symbolic-exponents");
         else if (!unsafe)
             stat("oracle-only-safe:mul");
     }
